@@ -81,6 +81,9 @@ static void setup(int nthr, int nops_each, int ops[][MAXOPS_PER_THREAD]) {
     for (int i = 0; i < C17_NIN; i++) {
         vs_add_shared_ro(C17_IN[i], C17_INBYTES[i]);
     }
+    for (int i = 0; i < C17_NSHREG; i++) {
+        vs_add_shared_ro(C17_SHREG[i], C17_SHREG_BYTES[i]);
+    }
     c17_reset_record();
     for (int t = 0; t < nthr; t++) {
         TS[t].nops = nops_each;
@@ -488,6 +491,9 @@ static void run_harness(int nthr, int nops_each, int ops[][MAXOPS_PER_THREAD], i
         for (int i = 0; i < C17_NIN; i++) {
             vs_add_shared_ro(C17_IN[i], C17_INBYTES[i]);
         }
+        for (int i = 0; i < C17_NSHREG; i++) {
+            vs_add_shared_ro(C17_SHREG[i], C17_SHREG_BYTES[i]);
+        }
         add_regions(0, t);
         const vs_exec *x = vs_run(1, b, a, NULL, 0);
         n_exec++;
@@ -680,6 +686,36 @@ int main(int argc, char **argv) {
             run_harness(3, 1, ops, 1, 4000);
         }
         vh_class("records", "%d slots, every pair of distinct slots as two threads", C17_NREC);
+    }
+    /* (f) one dictionary object shared by all threads through `const varintDict *` (Find / Lookup / EncodeWithDict):
+     * a shared read-only input like the arrays - no call may write to it, and every call returns what it returns alone */
+    if (vh_section_begin("shared_dict")) {
+        int a = C17_NALL + C17_NREC, b = a + 1;
+        static const int COMBO[4][3] = {{0, 1, -1}, {0, 0, -1}, {1, 1, -1}, {0, 1, 0}};
+        for (int k = 0; k < 4; k++) {
+            if (!vh_case()) {
+                continue;
+            }
+            int nt = COMBO[k][2] < 0 ? 2 : 3;
+            for (int t = 0; t < nt; t++) {
+                ops[t][0] = COMBO[k][t] ? b : a;
+            }
+            snprintf(HNAME, sizeof HNAME, "threads {%s, %s%s}", C17_OPS[ops[0][0]].name, C17_OPS[ops[1][0]].name, nt == 3 ? ", and the first again" : "");
+            run_harness(nt, 1, ops, nt == 3 ? 1 : max_bound, 4000);
+        }
+        ops[0][0] = a;
+        ops[1][0] = 0; /* a private-dictionary operation next to the shared one */
+        for (int i = 0; i < C17_NOPS; i++) {
+            if (!strcmp(C17_OPS[i].name, "dict")) {
+                ops[1][0] = i;
+                break;
+            }
+        }
+        if (vh_case()) {
+            snprintf(HNAME, sizeof HNAME, "threads {%s, %s}", C17_OPS[ops[0][0]].name, C17_OPS[ops[1][0]].name);
+            run_harness(2, 1, ops, 1, 4000);
+        }
+        vh_class("shared_dict", "two / three threads on one shared dictionary object");
     }
     /* (b) 16 threads, each running every operation, each thread a different rotation of the list */
     if (vh_section_begin("sixteen") && vh_case()) {
